@@ -54,7 +54,12 @@ void sc_schema(int ncols, int pad, Outcome& out) {
 
 void sc_write(const gen::WritePlan& p, const std::string& path, const std::vector<uint8_t>& dry_image, int on_error, Outcome& out) {
     exec::WriteOutcome w = exec::run_writer(p, path, -1, nullptr, on_error);
-    if (!w.all_ok) { out.error_reported = true; if (!w.created) return; return; }
+    if (!w.all_ok) {
+        out.error_reported = true;
+        // a writer that could not even be created hands the caller no handle to abort: for a path-based writer nothing may stay behind on disk
+        if (!w.created && p.path_mode) SIM_CHECK(!w.file_exists, "alloc.file_left_by_failed_create", "carquet_writer_create failed (status %d) but left a file of %zu bytes at the path; there is no handle to abort it with", (int)w.first_bad_status, w.image.size());
+        return;
+    }
     // every call reported success: the effect must be exactly that of the fault-free run
     SIM_CHECK(w.file_exists && w.image == dry_image, "alloc.silent_wrong_file", "an allocation failed during the write, every writer call returned OK, but the file (%zu bytes) differs from the fault-free one (%zu bytes)", w.image.size(), dry_image.size());
 }
